@@ -56,6 +56,9 @@ CHECKS['C19'] = ('property-based testing with a differential oracle: multi-subgr
 CHECKS['C18'] = ('property-based testing: validate()/compare_model vs an independently recomputed per-tensor metric from the check\'s own interpreter pairs; metric laws on generated arrays',
   'Generated models x recipes x 1..3 test samples per signature x both metrics: the four groups returned by validate() (or compare_model(float, float)) must contain exactly the tensor names present in both models\' main subgraph, each once, filed under inputs/outputs/constants/intermediates as the float model defines them, with values equal (rtol 1e-5) to the metric the check computes from its own two interpreter runs with its own dequantization, averaged over samples; self-comparison must be exactly 0; generated array pairs (incl. NaN/inf) check non-negativity, zero on equal arguments, MSE symmetry and the documented sanitising.',
   'Interpreter-created temporaries (e.g. BatchMatMul_scratch_buffer) are outside the property and ignored; inputs are quantized with the convention validate() uses.', 'DESIGN.md 4 C18')
+CHECKS['C07'] = ('property-based testing with a differential numeric oracle: float vs full-integer interpreter runs on the calibration input, stated error bound',
+  'Generated float models of depth <= 6 x every static-range config the policy accepts (as a "*" rule or per-op rules, including INPUT/OUTPUT quantization) x one calibration input that is also the test input: the dequantized outputs of the quantized model must stay within 4 output steps + phi*A of the float outputs (A = largest float activation; phi = 0.06 a8w8, 0.04 a16w8, 0.5 w4, at least 3x the largest error measured on the unchanged tree) and be finite; constant or entirely saturated outputs are reported as such when the bound is exceeded. One open finding (static BATCH_MATMUL with constant operand and CHANNELWISE weights gives garbage) is matched structurally.',
+  'The bound is a magnitude statement, not tight: parameter errors below ~1% are C04\'s subject. Constants are drawn without outliers.', 'DESIGN.md 4 C07')
 NOT_APPLICABLE = {}
 
 def main():
